@@ -46,4 +46,4 @@ LEVEL_TEXT = ('Bounded symbolic verification of the real SmootherGive/SmootherTa
               ' the energy inequality on the 5x4 grid. Shapes are bounded.')
 LEVEL_NOTE = 'exact arithmetic; numeric small-rational coefficient sets (symbolic coefficients through the line solves were tried and are out of reach of z3 here); shapes bounded; energy only on 5x4'
 TECHNIQUE = 'symbolic execution of LLVM IR (llsym) + SMT (cvc5 QF_LRA for the affine families, z3 QF_NRA for symbolic coefficients and the energy form)'
-DESIGN_REF = 'DESIGN.md section 6/C06'
+DESIGN_REF = 'DESIGN.md section 0 (status as built: 0.2, 0.5, 0.6) and section 6/C06 (design)'
